@@ -27,7 +27,9 @@ RULE = (
     "{default, 0, 0.25, 1/3}, uniform grid scale in {1, 1e-3, 1e3}; on the eta / scale "
     "sub-alphabet every discretization is repeated on the SAME grid and data dictionary and "
     "the second set of matrices is checked too; grid, stiffness and bc arrays are digested "
-    "before / after every discretize (purity)"
+    "before / after every discretize (purity); valid NON-CONVEX grids (dart quadrilaterals, "
+    "validity = positive volumes adding up to the domain measure, closed, non-self-intersecting "
+    "cells); `partition_arguments` num_subproblems in {1 (main alphabet), 2, 3}"
 )
 ASSUMPTIONS = [
     "constant isotropic stiffness; every boundary face is entirely Dirichlet or entirely "
@@ -51,14 +53,16 @@ BOUNDS = {
     "C(2,2,2)@shear <=1; (mu,lambda) in {(1,1),(1,10),(3,0)}; inverter python, plus numba on "
     "all-Dirichlet and side-wise assignments; eta in {0,0.25,1/3} and scale in {1e-3,1e3} "
     "(with repeated discretize) on C(2,2)~, T(2,2)~ (side-wise + <=2 flips), Tet(1,1,1)~, "
-    "C(2,2,2)@shear (<=1), (mu,lambda)=(1,10)",
+    "C(2,2,2)@shear (<=1), (mu,lambda)=(1,10); 3 dart grids side-wise + <=2 flips; num_subproblems "
+    "in {2,3} on C(3,2)@shear, T(2,2)~, a dart grid, Tet(1,1,1)~, C(2,2,2)@shear",
     "thorough": "2-d: C(2,2), T(2,2) x all 9 offsets x all 256 assignments; C(3,2) x all 81 "
     "offset pairs x (side-wise + <=2 flips); C(3,2), T(3,2) @shear/@skew all 1024 "
     "assignments; 3-d: Tet(1,1,1) x 27 offsets of a corner node x independent sets <=3; "
     "C(2,2,2) @id/@shear/@skew independent sets <=3; Tet(2,1,1)@shear <=2; Tet(2,2,2)~ <=1; "
     "(mu,lambda) in {(1,1),(1,10),(3,0)}; eta in {0,0.25,1/3}: C(2,2)~, T(2,2)~ all 256 "
     "assignments, Tet(1,1,1)~, C(2,2,2)@shear independent sets <=2, all three Lame pairs; scale "
-    "in {1e-3,1e3}: same grids, side-wise + <=2 flips / <=1",
+    "in {1e-3,1e3}: same grids, side-wise + <=2 flips / <=1; 5 dart grids; num_subproblems in {2,3} "
+    "as quick with <=2 flips and all Lame pairs",
 }
 MIN_CLASSES = 6
 CHUNK = 4
@@ -88,6 +92,14 @@ def _side_cases(spec, inverter="python", mulam=None, **extra):
                   "assign": {"mode": "sides", "part": 0, "nparts": 1}}, **extra) for mu, lam in mulam or MULAM]
 
 
+DARTS = [  # valid non-convex (dart) quadrilaterals: an interior node moved past a neighbour's diagonal
+    {"kind": "cart", "n": [3, 3], "set": [[5, [0.05, 0.07]]]},
+    {"kind": "cart", "n": [3, 3], "set": [[5, [0.05, 0.07]]], "map": "shear"},
+    {"kind": "cart", "n": [2, 2], "set": [[4, [0.9, 0.88]]]},
+    {"kind": "cart", "n": [3, 2], "set": [[5, [0.06, 0.1]]]},
+    {"kind": "cart", "n": [3, 3], "set": [[5, [0.05, 0.07]], [10, [0.95, 0.93]]]},
+]
+PARTS = [2, 3]  # partition_arguments num_subproblems (1 = default path, main alphabet)
 ETAS = [0.0, 0.25, 1.0 / 3.0]  # None (default) is the main alphabet
 SCALES = [1e-3, 1e3]
 
@@ -107,6 +119,16 @@ def _axes_cases(tier):
                 out += _mask_cases(spec, 8, mulam=ml, eta=eta, reuse=True)
         for spec in fam3:
             out += _indep_cases(spec, 1 if quick else 2, 1 if quick else 2, mulam=ml, eta=eta, reuse=True)
+    # non-convex cells: side-wise + <=2 flips (thorough: + all <=3 flips on the first two)
+    for i, spec in enumerate(DARTS if not quick else DARTS[:3]):
+        out += _side_cases(spec, mulam=ml) + _indep_cases(spec, 2, 1, mulam=ml)
+    # partitioned discretization (num_subproblems >= 2), incl. a dart grid
+    c32s = {"kind": "cart", "n": [3, 2], "map": "shear"}
+    for k in PARTS:
+        for spec in [c32s, fam2[1], DARTS[0]]:
+            out += _side_cases(spec, mulam=ml, nsub=k) + _indep_cases(spec, 1 if quick else 2, 1, mulam=ml, nsub=k)
+        for spec in fam3:
+            out += _indep_cases(spec, 1, 1, mulam=ml, nsub=k)
     for sc in SCALES:
         for spec in fam2:
             sp = dict(spec, scale=sc)
@@ -173,6 +195,8 @@ def _gridclass(spec):
     s = spec["kind"]
     if spec.get("pert"):
         s += "~"
+    if spec.get("set"):
+        s += "!dart"
     if spec.get("map", "id") != "id":
         s += "@"
     return s
@@ -195,13 +219,18 @@ def run_case(case) -> Outcome:
     hmin = G.h_min(g)
     amax = float(np.linalg.norm(nrm, axis=0).max())
     fields = F.affine_vector_basis(d)
-    korth = spec["kind"] == "cart" and not spec.get("pert") and spec.get("map", "id") == "id"
+    korth = spec["kind"] == "cart" and not spec.get("pert") and not spec.get("set") and spec.get("map", "id") == "id"
+    if spec.get("set") and not G.nonconvex_cells(g):
+        raise RuntimeError("declared dart grid has no non-convex cell")
+    nsub = case.get("nsub", None)
     gname = G.name(spec)
     gcls = f"{d}d/{_gridclass(spec)}/{case['inverter']}"
     if eta is not None:
         gcls += f"/eta={eta:.2f}"
     if spec.get("scale", 1) != 1:
         gcls += f"/x{spec['scale']:g}"
+    if nsub is not None:
+        gcls += f"/nsub={nsub}"
     stiff = pp.FourthOrderTensor(mu * np.ones(nc), lam * np.ones(nc))
     dig0 = G.digest(g, stiff)
 
@@ -216,6 +245,8 @@ def run_case(case) -> Outcome:
         params = {"fourth_order_tensor": stiff, "bc": bc, "inverter": case["inverter"]}
         if eta is not None:
             params["mpsa_eta"] = eta
+        if nsub is not None:
+            params["partition_arguments"] = {"num_subproblems": nsub}
         data = pp.initialize_data({}, KW, params)
         bccls = "allD" if not neu else ("allN" if dirf.size == 0 else f"mix{min(len(neu), 4)}")
         disc = pp.Mpsa(KW)
@@ -266,12 +297,12 @@ def run_case(case) -> Outcome:
                     f = int(dirf[k])
                     bad = ("MPSA boundary displacement differs from u on a Dirichlet face", f, ub[:, f], uf[:, f], tol_u)
                 nontrivial = (not korth) and kind != "transl" and bool(neu) and dirf.size > 0
-                key = (gname, mu, lam, tuple(neu), label, case["inverter"], eta, npass) if nontrivial else None
+                key = (gname, mu, lam, tuple(neu), label, case["inverter"], eta, npass, nsub) if nontrivial else None
                 if bad is not None:
                     if len(out.violations) < 5:
                         out.violate(bad[0], grid=spec, grid_name=gname, mu=mu, lam=lam, neumann_faces=neu,
                                     field=label, a=a, grad=Gm, face=bad[1], observed=bad[2], expected=bad[3],
-                                    tol=bad[4], inverter=case["inverter"], eta=eta, discretize_pass=npass + 1)
+                                    tol=bad[4], inverter=case["inverter"], eta=eta, num_subproblems=nsub, discretize_pass=npass + 1)
                     out.ev(f"{gcls}/{bccls}/{kind}{tag}/VIOLATION", key)
                 else:
                     out.ev(f"{gcls}/{bccls}/{kind}{tag}", key)
